@@ -30,6 +30,8 @@ def population(nusers=3, sess_per_user=1, topics=("g1",)):
 
 def consts_for(users, sess, topics, dev, **kw):
     so = sorted(sess, key=lambda s: int(s[1:]))
+    grp = [t for t in topics if t.startswith("g")]
+    p2p = [t for t in topics if t.startswith("p")]
     c = dict(BASE)
     c.update(dev)
     c.update({
@@ -37,17 +39,21 @@ def consts_for(users, sess, topics, dev, **kw):
         "Sessions": tla_set(map(tla_str, so)), "SessOrder": tla_seq(map(tla_str, so)),
         "SessUser": "[" + ", ".join("%s |-> %s" % (s, tla_str(sess[s])) for s in so) + "]",
         "Topics": tla_set(map(tla_str, topics)), "TopicOrder": tla_seq(map(tla_str, topics)),
+        "GrpTopics": tla_set(map(tla_str, grp)),
+        "P2PUsers": "[t \\in %s |-> {}]" % tla_set(map(tla_str, topics)) if not p2p else
+                    "[t \\in %s |-> CASE %s [] OTHER -> {}]" % (tla_set(map(tla_str, topics)),
+                        " [] ".join('t = "%s" -> {"u%s", "u%s"}' % (t, t[1], t[2]) for t in p2p)),
         "MaxSubs": "3",
     })
     c.update(kw)
     return c
 
 
-def mc_consts(users, sess, topics, dev, want, given, kinds, props, maxseq=0, maxdepth=0, dump="", maxsubs=3, delranges=None, maxdel=2):
+def mc_consts(users, sess, topics, dev, want, given, kinds, props, maxseq=0, maxdepth=0, dump="", maxsubs=3, delranges=None, maxdel=2, roots=None):
     return consts_for(users, sess, topics, dev,
                       WantModes=tla_set(tla_mode(m) for m in want), GivenModes=tla_set(tla_mode(m) for m in given),
                       Kinds=tla_set(map(tla_str, kinds)), MaxSeq=str(maxseq), MaxDepth=str(maxdepth),
-                      Props=tla_set(map(tla_str, props)), DumpPrefix=tla_str(dump), MaxSubs=str(maxsubs), RandomWalk="FALSE",
+                      Props=tla_set(map(tla_str, props)), DumpPrefix=tla_str(dump), MaxSubs=str(maxsubs), RandomWalk="FALSE", RootSessions=tla_set(map(tla_str, roots or [])),
                       DelRanges=tla_set(tla_seq(tla_seq([str(lo), str(hi)]) for lo, hi in rl) for rl in (delranges or [[(1, 0)]])), MaxDel=str(maxdel))
 
 
@@ -185,3 +191,74 @@ def stats(recs):
     codes = collections.Counter((r["act"].get("a"), r["reply"].get("code")) for r in recs)
     return {"steps": len(recs), "behaviours": sum(1 for r in recs if r["i"] == 0), "by_action": dict(acts),
             "by_action_code": {"%s:%s" % k: v for k, v in sorted(codes.items(), key=lambda kv: str(kv[0]))}}
+
+
+# ---------------------------------------------------------------------- goal-directed behaviours (trap properties)
+# Each goal is a state predicate over the model state `st` (and `last`, the request that led to it). TLC searches the
+# as-built model breadth-first for a state satisfying it (INVARIANT ~Goal) and the counterexample IS the behaviour; a tail of
+# requests that exercises the monitors' antecedents from that state is appended. This makes the rarely-true antecedents of
+# the monitors (pending transfer + reload, banned + unsubscribed + resubscribe, ...) true in every run instead of by luck.
+GOALS = {
+    "pending_transfer": ('\\E u \\in Users : st.topics["g1"].exists /\\ st.subs["g1"][u].st = "live" /\\ u # st.topics["g1"].owner '
+                         '/\\ "O" \\in M(st.subs["g1"][u].given) /\\ "O" \\notin M(st.subs["g1"][u].want) /\\ st.cache["g1"].loaded',
+                         [{"a": "Reload", "t": "g1"}, {"a": "Get", "s": "s1", "t": "g1", "what": "desc sub", "since": 0, "before": 0, "limit": 0, "chan": False},
+                          {"a": "SetDesc", "s": "s2", "t": "g1", "auth": ["J", "R"], "public": "x", "chan": False},
+                          {"a": "DelTopic", "s": "s2", "t": "g1", "hard": True, "chan": False}]),
+    "banned_and_unsubscribed": ('st.topics["g1"].exists /\\ st.subs["g1"]["u2"].st = "del" /\\ "J" \\notin M(st.subs["g1"]["u2"].given)',
+                                [{"a": "Sub", "s": "s2", "t": "g1", "mode": ["-"], "chan": False, "bg": False},
+                                 {"a": "Pub", "s": "s2", "t": "g1", "c": "c1", "noecho": False, "chan": False}]),
+    "banned_live": ('st.topics["g1"].exists /\\ st.subs["g1"]["u2"].st = "live" /\\ st.subs["g1"]["u2"].given = <<>> /\\ st.cache["g1"].loaded',
+                    [{"a": "DelTopic", "s": "s2", "t": "g1", "hard": True, "chan": False},
+                     {"a": "Sub", "s": "s2", "t": "g1", "mode": ["-"], "chan": False, "bg": False},
+                     {"a": "Sub", "s": "s2", "t": "g1", "mode": ["J", "R"], "chan": False, "bg": False}]),
+    "restricted_grant_unsubscribed": ('st.topics["g1"].exists /\\ st.subs["g1"]["u2"].st = "del" /\\ "J" \\in M(st.subs["g1"]["u2"].given) '
+                                      '/\\ st.subs["g1"]["u2"].given # st.topics["g1"].auth',
+                                      [{"a": "Sub", "s": "s2", "t": "g1", "mode": ["-"], "chan": False, "bg": False}]),
+    "admin_not_owner": ('st.topics["g1"].exists /\\ st.subs["g1"]["u2"].st = "live" /\\ "A" \\in Eff(st.subs["g1"]["u2"]) /\\ "O" \\notin M(st.subs["g1"]["u2"].given) '
+                        '/\\ "g1" \\in M(st.sess["s2"].subs)',
+                        [{"a": "SetSelf", "s": "s2", "t": "g1", "mode": ["J", "R", "W", "P", "A", "S", "O"], "chan": False},
+                         {"a": "SetSelf", "s": "s2", "t": "g1", "mode": ["J", "R", "W", "P", "A", "S", "D"], "chan": False},
+                         {"a": "SetOther", "s": "s2", "t": "g1", "u": "u1", "mode": ["J", "R"], "chan": False},
+                         {"a": "DelSub", "s": "s2", "t": "g1", "u": "u1", "chan": False}]),
+    "owner_detached": ('st.topics["g1"].exists /\\ st.cache["g1"].loaded /\\ "g1" \\notin M(st.sess["s1"].subs) /\\ st.cache["g1"].att # <<>>',
+                       [{"a": "SetSelf", "s": "s1", "t": "g1", "mode": ["J", "R"], "chan": False},
+                        {"a": "SetSelf", "s": "s1", "t": "g1", "mode": ["N"], "chan": False},
+                        {"a": "Leave", "s": "s1", "t": "g1", "unsub": True, "chan": False},
+                        {"a": "DelTopic", "s": "s2", "t": "g1", "hard": True, "chan": False}]),
+    "sharer_only": ('st.topics["g1"].exists /\\ st.subs["g1"]["u2"].st = "live" /\\ "S" \\in Eff(st.subs["g1"]["u2"]) /\\ ~IsAdmin(Eff(st.subs["g1"]["u2"])) '
+                    '/\\ "g1" \\in M(st.sess["s2"].subs) /\\ st.subs["g1"]["u3"].st = "none"',
+                    [{"a": "SetOther", "s": "s2", "t": "g1", "u": "u3", "mode": ["J", "R", "W", "P", "A"], "chan": False},
+                     {"a": "SetOther", "s": "s2", "t": "g1", "u": "u3", "mode": ["-"], "chan": False},
+                     {"a": "SetOther", "s": "s2", "t": "g1", "u": "u1", "mode": ["J", "R"], "chan": False}]),
+}
+
+
+def goal_behaviours(ctx, users, sess, topics, names=None, maxsubs=3):
+    import concurrent.futures
+    names = names or list(GOALS)
+    consts = mc_consts(users, sess, topics, DEV_BUILT, ["-", "N", "JR", "JRS", "JRA", "JRASO"], ["-", "N", "JR", "JRS", "JRAS", "JRASO"],
+                       ["NewGrp", "Sub", "Leave", "SetSelf", "SetOther", "DelSub", "DelTopic", "Unload"], [], maxsubs=maxsubs)
+
+    def one(name):
+        expr, tail = GOALS[name]
+        mod = "Goal_" + name
+        defs = "\n".join("c_%s == %s" % (k, v) for k, v in consts.items())
+        with open(os.path.join(ctx.specdir, mod + ".tla"), "w") as fh:
+            fh.write("---- MODULE %s ----\nEXTENDS TopicCore_MC\n%s\nNotGoal == ~(%s)\n====\n" % (mod, defs, expr))
+        with open(os.path.join(ctx.specdir, mod + ".cfg"), "w") as fh:
+            fh.write("CONSTANTS\n" + "\n".join("  %s <- c_%s" % (k, k) for k in consts) +
+                     "\nINIT Init\nNEXT Next\nINVARIANT NotGoal\nVIEW StView\nCHECK_DEADLOCK FALSE\n")
+        tj = os.path.join(ctx.scratch, mod + "_cex.json")
+        r = ctx.tlc(mod, workers=4, timeout=300, extra=["-dumpTrace", "json", tj])
+        if not os.path.exists(tj):
+            return name, None
+        data = json.load(open(tj))
+        steps = [v["last"] for idx, v in data["counterexample"]["state"] if v.get("last") and v["last"].get("a") != "Init"]
+        return name, steps + tail
+
+    out = {}
+    with concurrent.futures.ThreadPoolExecutor(max_workers=4) as ex:
+        for name, beh in ex.map(one, names):
+            if beh:
+                out[name] = beh
+    return out
